@@ -314,6 +314,13 @@ def xcem (line : String) : String :=
       verdict rs
     | _, _, _ => "bad-op"
 
+/-- comparison behind a cancellation: equal within the usual tolerance, or within the absolute error `extra` that the
+cancellation can amplify rounding differences to -/
+def cmpVecAbs (extra : Float) (a b : List Float) : Nat :=
+  let c := cmpVec a b
+  if c ≤ 1 then c
+  else if a.length == b.length && (List.zipWith (fun x y => decide ((x - y).abs ≤ extra)) a b).all id then 1 else 2
+
 open SharkVerif.Gen.CMAParams in
 /-- `xvdcma`: one-step refinement of `VDCMA::updateStrategyParameters` (constants from the regenerated formulas; the inner
 products and norms go through remora's kernels: toleranced like the CMA trace) -/
@@ -340,12 +347,17 @@ def xvdcma (line : String) : String :=
           let off : List (VdInd Float) := (List.zip fv (List.zip (chunk n xs) (chunk n ys))).map fun (f, x, y) => { point := x, y := y, fitness := f }
           let sel := vdSelect off mu
           let d' := vdUpdate FF c n d sel
+          -- `pc` contains `(m − mean)/σ`: the few-ulp differences between remora's and the model's weighted mean `m` are
+          -- amplified by `|m|/σ` (cancellation); D, v and |v| depend on `pc` through the rank-one term
+          let amax := fun (l : List Float) => l.foldl (fun m x => if x.abs > m then x.abs else m) 0
+          let extraPc := 1e-13 * amax (d'.mean ++ d.mean) / d.sigma
+          let extra := 8 * (1 + amax d'.pc) * extraPc
           match sel.head? with
           | some best =>
             let w := worstOf [("sigma", cmpNum d'.sigma.abs d'.sigma (← fnum fa "S")), ("mean", cmpVec d'.mean (← floats (field fa "M"))),
-              ("pc", cmpVec d'.pc (← floats (field fa "PC"))), ("ps", cmpVec d'.ps (← floats (field fa "PS"))),
-              ("D", cmpVec d'.D (← floats (field fa "D"))), ("vn", cmpVec d'.vn (← floats (field fa "VN"))),
-              ("normv", cmpNum d'.normv.abs d'.normv (← fnum fa "NV")),
+              ("pc", cmpVecAbs extraPc d'.pc (← floats (field fa "PC"))), ("ps", cmpVec d'.ps (← floats (field fa "PS"))),
+              ("D", cmpVecAbs extra d'.D (← floats (field fa "D"))), ("vn", cmpVecAbs extra d'.vn (← floats (field fa "VN"))),
+              ("normv", cmpVecAbs extra [d'.normv] [← fnum fa "NV"]),
               ("bestPoint", cmpVec best.point (← floats (field fa "BP"))), ("bestValue", cmpNum 0 best.fitness (← fnum fa "BV"))]
             if w.1 == 2 && hasTies fv && off.length > 16 then some (3, "ties") else some w
           | none => some (2, "empty")
